@@ -62,6 +62,9 @@ class VSpec:
         return self.OK
 
     def init(self, t, r, c, n):
+        # arguments are checked before anything is reset (a refused call leaves the object unchanged)
+        if r < 0 or c < 0 or n < 0 or not validate_type(t, r, c):
+            return self.FAIL
         self.resize(0, 0, 0, 0)
         self.perF = False
         self.z0, self.fz0 = [], []
